@@ -1,5 +1,5 @@
 (** Executable entry point of the C16 model for the correspondence check.
-    case = (0 init readers steps sched kcs)
+    case = (0 init readers steps sched kcs flavours)
       init    : value of the Root store (see harness/stores: Root/Mid/Sub/Item/Leaf)
       readers : list of accessor chains; chain = list of (kind arg): 0 field, 1 unwrap,
                 2 at_unkeyed, 3 keyed item
@@ -8,6 +8,8 @@
                 [keys] kept the segment of the previous report,
                 4 (reader): re-run that reader (its private trigger is notified)
       sched   : executor choices ([] = FIFO)
+      flavours: per reader, 1 = iterate over the collection the chain addresses
+                (iter_unkeyed / keyed into_iter) reading every item, 0 / absent = read the field
       kcs     : per step, the two visiting orders of FieldKeys::update (hash order in the
                 implementation; the observation must not depend on them) *)
 From Coq Require Import List ZArith.
@@ -47,8 +49,11 @@ Definition abs_nat (s : sexp) : nat := Z.abs_nat (as_Z s).
 Definition run_C16 (c : sexp) : sexp :=
   match as_Z (nth_s 0 c) with
   | 0%Z =>
+      let flavours := as_list (nth_s 6 c) in
+      let chains := map as_chain (as_list (nth_s 2 c)) in
       Lst (simulate ShRoot (nth_s 1 c)
-             (map as_chain (as_list (nth_s 2 c)))
+             (map (fun ic => (as_bool (nth (fst ic) flavours (Num 0%Z)), snd ic))
+                  (combine (seq 0 (length chains)) chains))
              (map as_hstep (as_list (nth_s 3 c)))
              (map abs_nat (as_list (nth_s 4 c)))
              (map (fun p => (map abs_nat (as_list (nth_s 0 p)), map abs_nat (as_list (nth_s 1 p))))
